@@ -44,15 +44,11 @@ WHY = {
  'clientV2_SetReadyCount': 'any change of RDY wakes the pump', 'clientV2_IsReadyForMessages': 'the send guard: not paused, in-flight < RDY, RDY > 0',
  'clientV2_SendingMessage': 'counters on delivery', 'clientV2_FinishedMessage': 'counters on FIN',
  'clientV2_TimedOutMessage': 'counters on timeout', 'clientV2_RequeuedMessage': 'counters on REQ', 'clientV2_StartClose': 'CLS: RDY 0, state closing',
-}
-GROUPS = {
- 'C01': ['Channel_put','Channel_PutMessage','Channel_PutMessageDeferred','Channel_StartInFlightTimeout','Channel_StartDeferredTimeout','Channel_pushInFlightMessage','Channel_processInFlightQueue','Channel_processDeferredQueue','Channel_RequeueMessage','Channel_TouchMessage','Topic_messagePump','Topic_put','Topic_PutMessage','Topic_PutMessages','Topic_GetChannel','pump_deliver','pump_loop_head'],
- 'C02': ['Channel_FinishMessage','Channel_popInFlightMessage','Channel_pushInFlightMessage','Channel_TouchMessage','Channel_RequeueMessage','Channel_StartInFlightTimeout','Channel_processInFlightQueue','protocolV2_FIN','protocolV2_REQ','protocolV2_TOUCH','pump_deliver','pump_loop_head'],
- 'C03': ['clientV2_SetReadyCount','clientV2_IsReadyForMessages','clientV2_SendingMessage','clientV2_FinishedMessage','clientV2_TimedOutMessage','clientV2_RequeuedMessage','clientV2_StartClose','protocolV2_CLS','pump_not_ready','pump_sources','Topic_messagePump'],
- 'C05': ['Topic_messagePump','Channel_flush','Channel_exit','Topic_flush','Topic_exit','NSQD_Exit','Channel_RequeueMessage','Channel_processInFlightQueue','Channel_processDeferredQueue','Channel_PutMessage','Topic_PutMessage','Topic_PutMessages'],
- 'C08': ['Channel_Empty','Channel_empty','Channel_exit','Channel_AddClient','Channel_RemoveClient','Topic_DeleteExistingChannel','NSQD_DeleteExistingTopic','NSQD_GetTopic','protocolV2_FIN'],
- 'C12': ['NSQD_GetTopic'],
- 'C13': ['clientV2_SendingMessage','clientV2_FinishedMessage','clientV2_TimedOutMessage','clientV2_RequeuedMessage','Channel_processInFlightQueue','Channel_FinishMessage','Channel_PutMessage','Channel_PutMessageDeferred','Topic_PutMessage','Topic_PutMessages','protocolV2_FIN','protocolV2_REQ'],
+ 'protocolV2_NewClient': 'connection ids come from ONE atomic increment (never reused, never shared)',
+ 'Channel_doPause': 'pause / unpause of a channel: the flag is stored FIRST, then every consumer is woken to re-read it',
+ 'Topic_doPause': 'pause / unpause of a topic: the flag is stored, then the pump is told',
+ 'Channel_popDeferredMessage': 'pop from the deferred map', 'Channel_pushDeferredMessage': 'one deferred entry per id',
+ 'Channel_addToInFlightPQ': 'timeout queue insertion under the in-flight mutex', 'Channel_addToDeferredPQ': 'deferred queue insertion under the deferred mutex',
 }
 def coqlist(toks):
     return '[ ' + '\n  ; '.join('"' + t.strip('"').replace('"', '""') + '"' if not (t.startswith('"') and t.endswith('"')) else t for t in toks) + ' ]'
@@ -87,6 +83,11 @@ segs = {
  'pump_deliver': ('protocolV2_messagePump', 'drop_until "if len(b) != 0 {"', 'delivery: attempts+1, registered in flight BEFORE the frame is written, client counters, then SendMessage'),
  'pump_sources': ('protocolV2_messagePump', 'cases_of', 'the select cases of the consumer pump (the four message sources among them)'),
 }
+# The core model (model/Core.v) is shared by C01-C05, C08 and C13: every one of their theorems
+# is about the whole step function, so every one of them relies on ALL the source-order facts.
+ALL = list(WHY.keys()) + list(segs.keys())
+GROUPS = {p: ALL for p in ['C01', 'C02', 'C03', 'C04', 'C05', 'C08', 'C13']}
+GROUPS['C12'] = ['NSQD_GetTopic']
 def evalseg(name):
     fn, expr, _ = segs[name]
     l = shapes[fn]
